@@ -80,7 +80,8 @@ def linear(g, rd, f, idx, ctx, depth=0):
                     if vid == n.get('id'):
                         vals.append((dp, vx))
             if len(vals) != 1 or vals[0][1] is None or vals[0][1] == vals[0][0].n['i']:
-                return None
+                # several definitions, or defined through an out-parameter: the variable itself is the symbol
+                return {'local:%s:%s' % (n.get('id'), n['name']): 1}
             dp, vx = vals[0]
             return linear(g, rd, dp.f, vx, dp.ctx, depth + 1)
         if 'v' in n:
